@@ -80,12 +80,31 @@ def excluded_by(p, excludes):
     return False
 
 
+PRECEDENCE = [".rnignore", ".rgignore", ".gitignore", ".ignore"]   # highest first (ignore crate: custom names in reverse order of
+                                                                    # registration, then .ignore); deeper directories before parents
+
+
+def file_decision(pats, name, is_dir):
+    """gitignore subset ('name', 'dir/', '*.ext', '!' negation): the LAST matching pattern of one file decides"""
+    d = None
+    for pt in pats:
+        neg = pt.startswith("!")
+        body = pt[1:] if neg else pt
+        if body.endswith("/"):
+            if not is_dir:
+                continue
+            body = body[:-1]
+        if fnmatch.fnmatchcase(name, body):
+            d = "whitelist" if neg else "ignore"
+    return d
+
+
 def expected_scope(tree, level, includes, excludes):
     """set of relpaths that may appear in a plan"""
     ignore_files = {}
     for e in tree:
         base = e["p"].rsplit("/", 1)[-1]
-        if e.get("k", "f") == "f" and base in (".gitignore", ".ignore", ".rgignore", ".rnignore"):
+        if e.get("k", "f") == "f" and base in PRECEDENCE:
             d = e["p"].rsplit("/", 1)[0] if "/" in e["p"] else ""
             pats = [ln.strip() for ln in e["c"].decode().splitlines() if ln.strip() and not ln.startswith("#")]
             ignore_files.setdefault((d, base), []).extend(pats)
@@ -97,16 +116,24 @@ def expected_scope(tree, level, includes, excludes):
         if ".git" in comps or ".renamify" in comps:
             continue
         ignored = False
-        for (d, base), pats in ignore_files.items():
-            if base not in CONSULTED[level]:
-                continue
-            if d == "" or p == d or p.startswith(d + "/"):
-                relp = p if d == "" else p[len(d) + 1:]
-                if relp and any(pat_matches(pt, relp, p in dirs) for pt in pats):
-                    ignored = True
-        if ignored:
-            continue
-        out.add(p)
+        for k in range(1, len(comps) + 1):          # every ancestor directory, then the entry itself
+            q = "/".join(comps[:k])
+            q_is_dir = k < len(comps) or p in dirs
+            decision = None
+            for depth in range(k - 1, -1, -1):      # ignore files of the deepest enclosing directory first
+                d = "/".join(comps[:depth])
+                for base in PRECEDENCE:
+                    if base in CONSULTED[level] and (d, base) in ignore_files:
+                        decision = file_decision(ignore_files[(d, base)], comps[k - 1], q_is_dir)
+                        if decision:
+                            break
+                if decision:
+                    break
+            if decision == "ignore":
+                ignored = True
+                break
+        if not ignored:
+            out.add(p)
     return out
 
 
@@ -144,6 +171,15 @@ def scenario(g, i):
     byf = {}
     for d, k, pats in r.sample(rules, r.randint(1, 4)):
         byf.setdefault((d, k), []).extend(pats)
+    if r.random() < 0.6:
+        # a whitelist line in a lower-precedence ignore file must not resurrect what a higher-precedence file excludes
+        # (never the other way round: a whitelist in the higher file legitimately wins)
+        hi = r.randrange(0, 3)
+        lo = r.randrange(hi + 1, 4)
+        byf.setdefault(("", PRECEDENCE[lo]), []).extend(["*.audit", "!" + s + ".audit"])
+        byf.setdefault(("", PRECEDENCE[hi]), []).append(s + ".audit")
+        tree += [{"p": s + ".audit", "k": "f", "c": body, "m": 0o644}, {"p": "src/deep/" + s + ".audit", "k": "f", "c": body, "m": 0o644},
+                 {"p": "other.audit", "k": "f", "c": body, "m": 0o644}]
     for (d, k), pats in byf.items():
         tree.append({"p": (d + "/" if d else "") + k, "k": "f", "c": ("\n".join(pats) + "\n").encode(), "m": 0o644})
     return tree, s, gen.render(b, "Snake")
